@@ -119,10 +119,37 @@ func ruleReflectHazards(p *Prog, a *Anchors, r *Report, rule string, inScope fun
 						}
 					case "(reflect.Value).Call", "(reflect.Value).CallSlice":
 						fn := x.Common().Args[0]
-						g := Guarded(in, func(c ssa.Value, pol bool) bool {
-							cc, ok := isReflectCall(c, "IsNil")
-							return ok && !pol && p.VN(cc.Common().Args[0]) == p.VN(fn)
-						})
+						nonNilAt := func(site ssa.Instruction, fv ssa.Value) bool {
+							return Guarded(site, func(c ssa.Value, pol bool) bool {
+								cc, ok := isReflectCall(c, "IsNil")
+								return ok && !pol && p.VN(cc.Common().Args[0]) == p.VN(fv)
+							})
+						}
+						g := nonNilAt(in, fn)
+						if !g && reflectCallWrapper(p, f) && recoversIntoError(f) {
+							g = true // "call of nil function" is recovered and returned as an error
+						}
+						if !g && reflectCallWrapper(p, f) {
+							// a helper that only makes the Call: the function value is the caller's, tested there
+							g = true
+							node := p.CG.Nodes[f]
+							if node == nil || len(node.In) == 0 {
+								g = false
+							}
+							if node != nil {
+								for _, edge := range node.In {
+									site, isInstr := edge.Site.(ssa.Instruction)
+									if !isInstr || len(edge.Site.Common().Args) < 1 || !nonNilAt(site, edge.Site.Common().Args[0]) {
+										g = false
+									}
+								}
+							}
+						}
+						if recoversIntoError(f) {
+							r.OK(mk(f, "Call:recovered"), p.InstrPos(in), "the call is made under a deferred recover that returns a panic of the called code as an error")
+						} else {
+							r.Bad(mk(f, "Call:recovered"), p.InstrPos(in), "code handed in by the caller (a context function, a method of a context value) is called without a recover: when it panics — or when Go has to dereference a nil embedded pointer to reach a promoted method — the process dies instead of the execution returning an error")
+						}
 						if g {
 							r.OK(mk(f, "Call:non-nil"), p.InstrPos(in), "the function value was tested with IsNil() on every path")
 						} else {
